@@ -188,7 +188,7 @@ def model_expr(case, io=None):
         q = case['queries'][qi]
         args, nq = query_terms(q)
         qs.append('(%s, %s, %s)' % (g_str(q[0]), g_list([g_term(a) for a in args]), g_nat(nq)))
-    return '(run_both_src %d %s %s %d)' % (DEPTH, g_cps(cps(source_of(case))), g_list(qs), LIMIT)
+    return '(%s %d %s %s %d)' % ('run_three_src' if case.get('three_views') else 'run_both_src', DEPTH, g_cps(cps(source_of(case))), g_list(qs), LIMIT)
 
 def model_views(mo):
     """[(ir_view, sld_view)] per query; a view is dict answers/count/err"""
@@ -221,6 +221,8 @@ def compare(case, io, mo):
             ir = dict(ir, answers=anon_vars(ir['answers'])) if 'answers' in ir else ir
             sld = dict(sld, answers=anon_vars(sld['answers'])) if 'answers' in sld else sld
         sldr = vs[2] if len(vs) > 2 else None
+        if sldr is not None and iq.get('findall_inner') and 'answers' in sldr:
+            sldr = dict(sldr, answers=anon_vars(sldr['answers']))
         qtxt = ast_io.term_text(['fun', q[0], q[1]]) if q[1] else q[0]
         if ir.get('stuck'):
             return 'model compiler stuck'
@@ -239,7 +241,13 @@ def compare(case, io, mo):
             # It binds a goal's unbound variable to the clause's fresh variable where the compiled code merely names the
             # argument, so under findall - whose model renames variables created inside the goal apart per answer - the
             # two may differ in the IDENTITY of unbound variables inside collected instances; nothing else may differ.
-            if not ('findall' in source_of(case) and ir['count'] == sld['count'] and anon_vars(ir['answers']) == anon_vars(sld['answers'])):
+            # Once such an instance meets a non-variable bag, or a later goal looks at the variable, the difference in identity
+            # becomes a difference in answers; a case that is evaluated with the third view (SldR.solveR: the reference of the
+            # proved chain, which keeps the caller's variable) is judged by that view instead.
+            fa = 'findall' in source_of(case) or q[0] == 'findall'
+            if fa and sldr is not None and not sldr.get('err') and not sldr.get('stuck') and ir['answers'] == sldr['answers'] and ir['count'] == sldr['count']:
+                pass
+            elif not (fa and ir['count'] == sld['count'] and anon_vars(ir['answers']) == anon_vars(sld['answers'])):
                 return 'query %s: compiled-code model and SLD reference differ (%d vs %d answers)' % (qtxt, ir['count'], sld['count'])
         if sldr is not None and not sldr.get('err') and (ir['answers'] != sldr['answers'] or ir['count'] != sldr['count']):
             return 'query %s: compiled-code model and renamed-apart SLD reference (SldR.solveR) differ (%d vs %d answers) - this contradicts a proved theorem: harness bug' % (qtxt, ir['count'], sldr['count'])
